@@ -19,9 +19,9 @@ PROFILES = {
                  new_cells=2, del_cells=1),
     "edit": dict(call=35, set_value=6, clear_at=3, clear=2, clear_all=2, set_ref=20,
                  del_ref=8, set_formula=10, set_cached=6, set_allow_none=2,
-                 new_cells=4, del_cells=3),
+                 new_cells=4, del_cells=3, del_space=2, rename_space=2),
     "value": dict(call=45, set_value=25, clear_at=15, clear=5, clear_all=5, set_ref=3,
-                  set_formula=2),
+                  set_formula=2, del_space=1),
     "fail": dict(call=60, set_formula=20, set_ref=8, del_ref=6, set_value=4, clear_at=2),
     "flags": dict(call=45, set_cached=20, set_ref=12, del_ref=4, set_formula=8,
                   set_value=4, clear_at=2, set_allow_none=3, new_cells=1, del_cells=1),
@@ -382,6 +382,23 @@ class Gen:
                 "rec": {"f": self.formula(p, c), "cached": rng.random() >= self.p_uncached,
                         "an": 0}}
 
+    def mk_del_space(self):
+        sp = self.mir["sp"]
+        if len(sp) <= 2:
+            return None
+        hs = [q for q in self.hot_spaces() if q in sp]
+        p = self.rng.choice(hs) if hs and self.rng.random() < 0.6 else self.rng.choice(sp)
+        return {"op": "del_space", "p": list(p)}
+
+    def mk_rename_space(self):
+        sp = self.mir["sp"]
+        hs = [q for q in self.hot_spaces() if q in sp]
+        p = self.rng.choice(hs) if hs and self.rng.random() < 0.6 else self.rng.choice(sp)
+        nm = self.rng.choice(["X", "Y", "Z"])
+        if any(q[:-1] == list(p[:-1]) and q[-1] == nm for q in sp):
+            return None
+        return {"op": "rename_space", "p": list(p), "nm": nm}
+
     def mk_del_cells(self):
         cells = self.all_cells()
         if len(cells) <= 2:
@@ -432,3 +449,20 @@ class Gen:
             m["cells"][tp(op["s"])][op["c"]] = dict(op["rec"])
         elif k == "del_cells":
             m["cells"][tp(op["s"])].pop(op["c"], None)
+        elif k == "del_space":
+            p = op["p"]
+            gone = [q for q in m["sp"] if q[:len(p)] == list(p)]
+            for q in gone:
+                m["sp"].remove(q)
+                for key in ("cells", "refs", "bases", "span"):
+                    m[key].pop(tp(q), None)
+        elif k == "rename_space":
+            p, nm = op["p"], op["nm"]
+            new = list(p[:-1]) + [nm]
+
+            def R(q):
+                return new + list(q[len(p):]) if list(q[:len(p)]) == list(p) else list(q)
+            m["sp"] = [R(q) for q in m["sp"]]
+            for key in ("cells", "refs", "span", "bases"):
+                m[key] = {tp(R(q)): v for q, v in m[key].items()}
+            self.hot = [[R(q), c] for q, c in self.hot]
